@@ -1,4 +1,4 @@
 CONSTANTS
-  Fams = {"shadow", "fold", "cond"}
+  Fams = {"shadow", "fold", "cond", "xfold"}
 SPECIFICATION Spec
 INVARIANTS Modelled Export
